@@ -70,11 +70,24 @@ PROPS = {
                                  "collision-freedom hypothesis NoCollide for 'block = specification' (renamed names pairwise distinct and not another entry's original name); the precedence theorems need no such hypothesis"],
         explanation="Env-block fold proved equal to the top-to-bottom specification; runtime-precedence invariant during and after the walk; write-back; errors; tied by correspondence through the package's own internal/env (case-sensitive and upper-casing) and a direct replay oracle with the real library.",
     ),
+    "C14": dict(
+        level="proof", gen=True, corr_name="canonical payload bytes (driver mode sig: payload)",
+        trusted_base=COMMON_TB + ["encoding/json and gowebpki/jcs: the model *is* RFC 8785 over the value tree of the Marshal model; byte equality with the real payload (captured through WithDebugSigning) is checked differentially",
+                                 "number literals: the harness supplies the ES6 rendering of floats; integers are rendered in decimal, valid below 2^53 (integers beyond that are rounded by JCS: recorded finding F12); theorems assume literals are number tokens (NumOK)",
+                                 "Plugin.FullSource outside the modelled url.Parse domain is kept as written by the model (never generated for signing)"],
+        explanation="Serialiser injectivity (left-to-right, delimiter-initial rests), canonicalisation = forgetting member order, payload-level injectivity and invariances; real payload bytes vs model; must-collide / must-not-collide variant search on the implementation.",
+    ),
 }
 
 NOT_APPLICABLE = {}
 
 MANIFEST_TEXT = {
+    "C14": dict(
+        text="Kernel-checked proofs (Lean 4) about a model of the signed byte string (value tree of the JSON marshalling, RFC 8785 canonical serialisation): the serialiser is injective on well-formed values (no characters can move between adjacent fields, key and value, or nesting levels), canonicalisation forgets exactly the order of object members, equal payloads imply equal algorithm and field-by-field equal values (env:: entries included, which can never collide with step fields), and the payload is invariant under map population order, nil versus empty env/plugins/matrix and canonical plugin source spelling. Tied to the code by comparing the model's bytes with the real payload captured from Sign and Verify for every key kind, and by a collision search on re-spellings (must collide) and boundary-shifting / single-point variants (must not).",
+        design_ref="DESIGN.md §6 C14",
+        note="Trusted: Lean kernel; encoding/json + jcs (differentially checked byte-for-byte); float ES6 literals from the harness; integers below 2^53 (F12 beyond).",
+        technique="Lean 4 proof of serialiser injectivity (mutual induction, prefix-freeness with delimiter-initial rests) + byte-level correspondence + collision search",
+    ),
     "C10": dict(
         text="Kernel-checked proofs (Lean 4) about a mirror of interpolateEnvBlock for an arbitrary expansion function and name-normaliser: the in-place walk equals the top-to-bottom specification (entry i expanded with the caller environment plus all earlier entries, same positions), the expanded values are written back to the caller, and with runtime precedence every name the caller already had keeps the caller's value in every expansion and afterwards while the block records the pipeline's value; lookups go through the environment's own name equality; an expansion error aborts with that entry's error. Tied by correspondence through the package's own env implementation (both case modes) and by a direct replay with the real interpolation library.",
         design_ref="DESIGN.md §6 C10",
